@@ -131,13 +131,13 @@ Print Assumptions C01_composed_broadcast_valid.
 
 (* (2) DUTYDB: all answers of a duty store for one key carry one content (C06_answers_unique, order
    free), hence a validator client that signs what it is served signs at most one root per key. *)
-Theorem C01b_dutydb_answers_one_content : forall dls ds, DD.run DD.init dls = Some ds -> DD.disciplined dls = true ->
+Theorem C01b_dutydb_answers_one_content : forall dls ds, DD.run DD.xinit dls = Some ds -> DD.disciplined dls = true ->
   forall q1 q2 k c1 c2, In (DD.LAnswer q1 k c1) dls -> In (DD.LAnswer q2 k c2) dls -> c1 = c2.
 Proof. exact dutydb_answers_one_content. Qed.
 Print Assumptions C01b_dutydb_answers_one_content.
 
 Theorem C01b_vc_one_root_per_key : forall ckey ls nd dls ds dkey croot,
-  DD.run DD.init dls = Some ds -> DD.disciplined dls = true -> vc_follows ckey ls nd dls dkey croot ->
+  DD.run DD.xinit dls = Some ds -> DD.disciplined dls = true -> vc_follows ckey ls nd dls dkey croot ->
   forall b o b' o' k r r', ckey k = true ->
     In (LSign nd b o) ls -> In (k, r) b -> In (LSign nd b' o') ls -> In (k, r') b' -> r = r'.
 Proof. exact vc_one_root_per_key. Qed.
